@@ -99,6 +99,9 @@ class Engine:
         if self.after_call and c.frames:
             nm = getattr(fn, "name", None) or getattr(fn, "__name__", None) or getattr(getattr(fn, "node", None), "name", None)
             h = self.after_call.get((c.frames[-1].qual, nm))
+            if h is None and node is not None and hasattr(node, "func"):
+                syn = getattr(node.func, "id", None) or getattr(node.func, "attr", None)
+                h = self.after_call.get((c.frames[-1].qual, syn))
             if h:
                 h(c, c.frames[-1], r)
         return r
